@@ -16,7 +16,8 @@ mkdir -p /verif/seeded/$name && cp $seed/patch.diff $seed/meta.json $seed/$demo 
 echo "== check $prop with patch applied to /repo"
 git -C /repo apply $seed/patch.diff || { echo "patch does not apply to /repo"; exit 2; }
 # evidence written while a seeded change is applied must not replace the evidence of the unchanged tree
-bak=$(mktemp -d); cp -a /verif/evidence/. $bak/
-(cd /verif && timeout 1800 ./check $prop $CHECK_ARGS 2>/dev/null | grep -v "^loaded\|^Harness" | tail -6)
-rm -rf /verif/evidence; mkdir -p /verif/evidence; cp -a $bak/. /verif/evidence/; rm -rf $bak
+# (only this property's files are saved and restored: other checks may be running)
+bak=$(mktemp -d); mkdir -p $bak/replay; cp -a /verif/evidence/$prop.json $bak/ 2>/dev/null; cp -a /verif/evidence/replay/$prop-* $bak/replay/ 2>/dev/null
+(cd /verif && timeout 1800 ./check $prop ${CHECK_ARGS:-} 2>/dev/null | grep -v "^loaded\|^Harness" | tail -6)
+rm -f /verif/evidence/$prop.json /verif/evidence/replay/$prop-*; cp -a $bak/$prop.json /verif/evidence/ 2>/dev/null; cp -a $bak/replay/. /verif/evidence/replay/ 2>/dev/null; rm -rf $bak
 git -C /repo checkout -q -- . ; git -C /repo status --short | head -3
